@@ -1,4 +1,5 @@
 import MJ.Proofs.Undef
+import MJ.Proofs.UndefTwins
 /-!
 # C12 — stricter undefined modes only add errors; the documented matrix holds
 
@@ -837,6 +838,29 @@ theorem all_mode_sites_monotone :
 /-- the classification is not vacuous: `!= Lenient` (errors under Chainable, SemiStrict, Strict) is
     rejected, `Strict | SemiStrict` accepted -/
 example : upClosed [0, 2, 3] = false ∧ upClosed [2, 3] = true ∧ upClosed [3] = true ∧ upClosed [1] = false := by decide
+
+/-- every call of a mode-blind twin of the helpers (`Value::try_iter`, `Value::is_true`, `get_attr` / `get_item(_opt)` /
+    `get_attr_fast` / `get_item_by_index` without `handle_undefined`, `is_undefined()` guards) in minijinja/src and
+    minijinja-contrib/src outside the value layer -- regenerated per (file, fn, twin) with its count on every run -- is
+    justified: the helper's own body, a function that asks the helper about the same operand (backed by a helper call
+    found in that function), the `defined` / `undefined` / `default` row, a boolean or value the engine built itself, a
+    compile-time constant (the constant folder has no look-up twin, so no constant is undefined), an object-only
+    iteration, the modelled conversion layer, or the body of a builtin (only in the builtin files, never in the VM or
+    the compiler).  One more blind call anywhere -- the recursion arm of push_loop in seeded C12-6, the look-up arms of
+    as_const in C12-7 -- breaks it. -/
+theorem blind_twin_sites_justified :
+    (MJ.Gen.undefBlindTwins.filter (fun r => !valueLayer r.1)) = twinJustification.map (fun j => (j.1, j.2.1, j.2.2.1, j.2.2.2.1)) ∧
+    (∀ j ∈ twinJustification, j.2.2.2.2 = TwinWhy.asksHelper → asksAHelper j.1 j.2.1 = true) ∧
+    (∀ j ∈ twinJustification, j.2.2.2.2 = TwinWhy.builtinBody → builtinFile j.1 = true) ∧
+    (∀ j ∈ twinJustification, j.2.2.2.2 = TwinWhy.helperBody → j.1 = "minijinja/src/utils.rs" ∧ j.2.1 = j.2.2.1) ∧
+    (∀ r ∈ MJ.Gen.undefBlindTwins, r.1 = "minijinja/src/compiler/ast.rs" → r.2.2.1 = "is_true") :=
+  MJ.Undef.blind_twin_sites_justified
+
+/-- not vacuous: a VM row justified by a helper call; the table with the blind call of seeded C12-6 added is rejected -/
+example : ("minijinja/src/vm/mod.rs", "eval_impl", "get_item_opt", 1, TwinWhy.asksHelper) ∈ twinJustification ∧
+    asksAHelper "minijinja/src/vm/mod.rs" "eval_impl" = true ∧
+    (("minijinja/src/vm/mod.rs", "push_loop", "try_iter", 1) :: MJ.Gen.undefBlindTwins).filter (fun r => !valueLayer r.1)
+      ≠ twinJustification.map (fun j => (j.1, j.2.1, j.2.2.1, j.2.2.2.1)) := by decide
 
 /-! ## full statement -/
 
